@@ -19,6 +19,18 @@ package we
 //     every dial;
 //   - the channel's connectivity-state publications (READY = the connection
 //     attempt succeeded).
+//
+// Split mode (rtCfg.Split): a client stream interceptor hands the world's
+// script a stream whose receiving side is driven by a second goroutine: the
+// script's goroutine is the one sender (SendMsg, CloseSend), the extra
+// goroutine is the one receiver (optionally Header(), then RecvMsg until the
+// final status) of the real stream, both running concurrently as the
+// ClientStream documentation allows; the script's recv operations take the
+// results from a queue. A failed attempt is then noticed, and the next attempt
+// started, by the receiver while the sender is inside SendMsg/CloseSend.
+// rtCfg.NapNs makes the client stats handler (user code that may block) sleep
+// in one kind of callback, which stretches the time an operation spends
+// between "done on the attempt" and "recorded for replay".
 
 import (
 	"context"
@@ -74,10 +86,20 @@ type rtCfg struct {
 	MaxCallAttempts int         `json:"max_call_attempts,omitempty"` // WithMaxCallAttempts; 0: not set (documented default 5)
 	BufBytes        int         `json:"buf_bytes,omitempty"`         // MaxRetryRPCBufferSize; 0: not set (documented default 256 KiB)
 	Backoff         *rtBackoff  `json:"backoff,omitempty"`           // nil: the documented default config
+	Split           []rtSplit   `json:"split,omitempty"`             // RPCs driven by a sender and a receiver goroutine
+	NapNs           int64       `json:"nap_ns,omitempty"`            // the client stats handler sleeps this long ...
+	NapOn           string      `json:"nap_on,omitempty"`            // ... in this callback: out_payload (default) | in_payload | in_header
 	C18             bool        `json:"c18,omitempty"`
 	C19             bool        `json:"c19,omitempty"`
 	C20             bool        `json:"c20,omitempty"`
 	Trace           bool        `json:"trace,omitempty"`
+}
+
+// rtSplit selects split mode for one RPC.
+type rtSplit struct {
+	ID uint32 `json:"rpc_id"`
+	// Header: the receiver goroutine calls Header() before its RecvMsg loop
+	Header bool `json:"header,omitempty"`
 }
 
 const (
@@ -108,6 +130,23 @@ func (c *rtCfg) validate() error {
 	if b := c.Backoff; b != nil {
 		if b.BaseNs < 0 || b.MaxNs < 0 || b.MinConnectNs < 0 {
 			return errors.New("negative backoff durations")
+		}
+	}
+	if c.NapNs < 0 || c.NapNs > int64(time.Second) {
+		return errors.New("stats handler nap out of range")
+	}
+	switch c.NapOn {
+	case "", "out_payload", "in_payload", "in_header":
+	default:
+		return errors.New("unknown stats handler nap point")
+	}
+	return nil
+}
+
+func (c *rtCfg) split(id uint32) *rtSplit {
+	for i := range c.Split {
+		if c.Split[i].ID == id {
+			return &c.Split[i]
 		}
 	}
 	return nil
@@ -156,15 +195,15 @@ type rtAttempt struct {
 	// respBefore: when this attempt began, an earlier attempt of the RPC had
 	// already received response headers or a message; respAtEnd: when this
 	// attempt ended, it or an earlier attempt had
-	respBefore bool
-	respAtEnd  bool
-	endSubCount    int
-	endSubBytes    int
-	ended          bool
-	endSeq     uint64
-	endAt      int64
-	endErr     error
-	endTrailer metadata.MD
+	respBefore  bool
+	respAtEnd   bool
+	endSubCount int
+	endSubBytes int
+	ended       bool
+	endSeq      uint64
+	endAt       int64
+	endErr      error
+	endTrailer  metadata.MD
 }
 
 type rtInv struct {
@@ -207,11 +246,12 @@ type rtExt struct {
 	dials  []*rtDial
 	states []rtState
 	unsub  func()
+	splits map[uint32]*rtSplitStream
 }
 
 func init() {
 	RegisterExt("retry", func(raw json.RawMessage) (Ext, error) {
-		x := &rtExt{atts: map[uint32][]*rtAttempt{}, invs: map[uint32][]*rtInv{}}
+		x := &rtExt{atts: map[uint32][]*rtAttempt{}, invs: map[uint32][]*rtInv{}, splits: map[uint32]*rtSplitStream{}}
 		if err := json.Unmarshal(raw, &x.cfg); err != nil {
 			return nil, err
 		}
@@ -239,6 +279,9 @@ func (x *rtExt) DialOpts(w *run) []grpc.DialOption {
 	}
 	if c.BufBytes > 0 {
 		opts = append(opts, grpc.WithDefaultCallOptions(grpc.MaxRetryRPCBufferSize(c.BufBytes)))
+	}
+	if len(c.Split) > 0 {
+		opts = append(opts, grpc.WithChainStreamInterceptor(x.splitIntercept))
 	}
 	if b := c.Backoff; b != nil {
 		opts = append(opts, grpc.WithConnectParams(grpc.ConnectParams{
@@ -348,10 +391,13 @@ func (h *rtStats) HandleRPC(ctx context.Context, s stats.RPCStats) {
 		a.outHeader = true
 	case *stats.OutPayload:
 		a.outPayload = append(a.outPayload, v.Length)
+		h.nap("out_payload")
 	case *stats.InHeader:
 		a.inHeader = true
+		h.nap("in_header")
 	case *stats.InPayload:
 		a.inPayload++
+		h.nap("in_payload")
 	case *stats.InTrailer:
 		a.inTrailer = true
 	case *stats.End:
@@ -376,6 +422,176 @@ func (h *rtStats) HandleRPC(ctx context.Context, s stats.RPCStats) {
 		}
 		e.Logf("rpc %d attempt %d end err=%v hdr=%v msgs=%d pushback=%q", a.rpc, a.idx, errStr(v.Error), a.inHeader, a.inPayload, v.Trailer.Get("grpc-retry-pushback-ms"))
 	}
+}
+
+// nap: a stats handler is user code and may take (simulated) time.
+func (h *rtStats) nap(at string) {
+	c := &h.x.cfg
+	if c.NapNs <= 0 {
+		return
+	}
+	on := c.NapOn
+	if on == "" {
+		on = "out_payload"
+	}
+	if on == at {
+		time.Sleep(time.Duration(c.NapNs))
+	}
+}
+
+// ---- split mode: one sender goroutine, one receiver goroutine ----
+
+type rtRecvItem struct {
+	b   []byte
+	err error
+}
+
+// rtSplitStream is what the world's script sees of a split-mode RPC. Sending
+// goes straight to the real stream from the script's goroutine; receiving is
+// done by receiver() on its own goroutine and handed over through q.
+type rtSplitStream struct {
+	grpc.ClientStream // the real stream
+	x                 *rtExt
+	id                uint32
+	q                 []rtRecvItem
+	sig               chan struct{} // capacity 1: q grew or the receiver ended
+	done              bool          // receiver goroutine has returned
+	lastErr           error
+	hdr               metadata.MD
+	hdrOK             bool
+	hdrErr            error
+	hdrTried          bool
+	hdrCh             chan struct{} // closed once Header() was tried or the receiver ended
+	// coverage
+	sendCalls, switchedInSend, switchedInClose int
+}
+
+func (x *rtExt) splitIntercept(ctx context.Context, desc *grpc.StreamDesc, cc *grpc.ClientConn, method string, streamer grpc.Streamer, opts ...grpc.CallOption) (grpc.ClientStream, error) {
+	cs, err := streamer(ctx, desc, cc, method, opts...)
+	if err != nil {
+		return nil, err
+	}
+	md, _ := metadata.FromOutgoingContext(ctx)
+	v := md.Get("x-sim-rpc")
+	if len(v) != 1 {
+		return cs, nil
+	}
+	id64, _ := strconv.ParseUint(v[0], 10, 32)
+	sp := x.cfg.split(uint32(id64))
+	if sp == nil || x.w.rpcs[uint32(id64)] == nil {
+		return cs, nil
+	}
+	s := &rtSplitStream{ClientStream: cs, x: x, id: uint32(id64), sig: make(chan struct{}, 1), hdrCh: make(chan struct{})}
+	x.splits[s.id] = s
+	go s.receiver(sp.Header)
+	return s, nil
+}
+
+func (s *rtSplitStream) wake() {
+	select {
+	case s.sig <- struct{}{}:
+	default:
+	}
+}
+
+func (s *rtSplitStream) header() {
+	h, err := s.ClientStream.Header()
+	if err == nil {
+		s.hdr, s.hdrOK = h, true
+	}
+	s.hdrErr = err
+	if !s.hdrTried {
+		s.hdrTried = true
+		close(s.hdrCh)
+	}
+}
+
+// receiver is the RPC's one receiving goroutine. It ends with the stream: the
+// world cancels the RPC's context when its script is over at the latest.
+func (s *rtSplitStream) receiver(header bool) {
+	e := s.x.w.e
+	if header {
+		s.header()
+		e.Logf("rpc %d receiver header -> %v", s.id, errStr(s.hdrErr))
+	}
+	for n := 0; ; n++ {
+		m := &Msg{}
+		err := s.ClientStream.RecvMsg(m)
+		if err == nil && !s.hdrOK {
+			s.header() // a message has arrived, so have the headers: returns at once
+		}
+		s.q = append(s.q, rtRecvItem{m.B, err})
+		if err != nil {
+			e.Logf("rpc %d receiver ends after %d messages -> %v", s.id, n, errStr(err))
+			s.done = true
+			if !s.hdrTried {
+				s.hdrTried = true
+				close(s.hdrCh)
+			}
+			s.wake()
+			return
+		}
+		s.wake()
+	}
+}
+
+func (s *rtSplitStream) RecvMsg(m any) error {
+	for len(s.q) == 0 {
+		if s.done {
+			return s.lastErr
+		}
+		<-s.sig
+	}
+	it := s.q[0]
+	s.q = s.q[1:]
+	if it.err != nil {
+		s.lastErr = it.err
+		return it.err
+	}
+	m.(*Msg).B = it.b
+	return nil
+}
+
+func (s *rtSplitStream) Header() (metadata.MD, error) {
+	if !s.hdrTried {
+		<-s.hdrCh
+	}
+	if s.hdrOK {
+		return s.hdr, nil
+	}
+	if s.done {
+		return s.ClientStream.Header() // nobody else is using the stream any more
+	}
+	return nil, s.hdrErr
+}
+
+// Trailer is valid only after RecvMsg has returned an error; when the script
+// asks for it because a SendMsg failed for good (which finishes the stream),
+// let the receiver see the end first instead of using the stream next to it.
+func (s *rtSplitStream) Trailer() metadata.MD {
+	for !s.done {
+		<-s.sig
+	}
+	return s.ClientStream.Trailer()
+}
+
+func (s *rtSplitStream) SendMsg(m any) error {
+	n := len(s.x.atts[s.id])
+	s.sendCalls++
+	err := s.ClientStream.SendMsg(m)
+	if err == nil && len(s.x.atts[s.id]) > n {
+		s.switchedInSend++
+	}
+	return err
+}
+
+func (s *rtSplitStream) CloseSend() error {
+	n := len(s.x.atts[s.id])
+	err := s.ClientStream.CloseSend()
+	if err == nil && len(s.x.atts[s.id]) > n {
+		s.switchedInClose++
+	}
+	return err
 }
 
 // ---- server interceptor ----
